@@ -25,6 +25,15 @@ CHECKS["C05"] = ("DESIGN §4 C05",
     "every letter sequence up to the depth bound is executed on the real simulation and every step is checked against the documented update relations, the discrete equation on free dofs, the constraint values, the K/C/M weights as exact difference quotients, the Newton (residual) path, and the energy statements; one step is affine in (u_n,v_n,a_n,F) so the basis decides all prior states",
     "trusted: numpy dense algebra; the load is taken constant within a step; tolerances 1e-9/1e-10 relative")
 
+CHECKS["C02"] = ("DESIGN §4 C02",
+    "exhaustive enumeration (deviation-bounded quick / full product thorough) of simulation x element type x mesh x material x thickness x density configurations; dense spectral oracle on the real assembled K, C, M",
+    "every configuration of the stated alphabets is assembled by the real code and decided by dense eigen-analysis: symmetry, PSD, K R = 0 for the analytic rigid/constant modes, nullity = rank(R), reduced SPD, M SPD and total mass",
+    "trusted: numpy eigvalsh / QR; MeshZoo closed-form measures; spectral gap guard (ambiguous spectra are skipped and counted)")
+CHECKS["C03"] = ("DESIGN §4 C03",
+    "explicit-state exploration, unmerged: every operation sequence to depth 3 (quick) / 4 (thorough) over {assemble, add Lagrange condition, clear BCs, swap slot table, new values, switch real/complex, replace mesh, renumber} on a harness subclass of a real simulation; Assembly() compared after every operation with a dense scatter-add; all 24 node permutations of the 4-node mesh",
+    "all histories up to the depth bound run on the real assembly code with its cached CSR reduction map; the oracle is an independent triple loop over the element arrays the simulation itself returns",
+    "trusted: the documented dof convention node*dof_n+component; numpy; tolerance 1e-13")
+
 PENDING_REASON = "not claimed yet: the bounded-exhaustive check for this property is designed (DESIGN.md §4) but not built in the committed tree"
 
 
